@@ -2,7 +2,7 @@
 
 Domain : histories over a small universe - 6 paths (two with the same basename in different folders, two languages, one
          excluded by default, one hidden) x 5 contents (two differing only in one function's length, one malformed, one
-         empty). Operations: write, delete, rename, touch (mtime only), swap contents, set exclusions (option list /
+         empty). Operations: write, write with an old mtime, delete, rename, touch (mtime only), swap contents, set exclusions (option list /
          .codelimit.yml / root .gitignore), replace the cache by one from another version (same document with another / no / null version,
          perturbed measurements), alter cache entries (drop an entry, add an entry for a missing path, change a checksum,
          move an entry to another path), scan. Hypothesis rule-based state machine (histories up to 25 / 50 steps) plus
@@ -36,7 +36,7 @@ from vf.harness.probe import AnalysisProbe
 ID = "C09"
 LEVEL = "exploration"
 RULE = (
-    "histories = operation sequences over {write, delete, rename, touch, swap, set exclusions, other-version cache, "
+    "histories = operation sequences over {write, write keeping an old mtime, delete, rename, touch, swap, set exclusions, other-version cache, "
     "alter cache entry, scan} on 6 paths x 5 contents: (a) every sequence of 1..2 (thorough 3) operations from a "
     "reduced alphabet followed by a scan, with and without a scan after the first operation, from an initial scanned "
     "tree (enumerated once each); (b) Hypothesis RuleBasedStateMachine histories of up to 25 (thorough 50) steps. "
@@ -118,6 +118,11 @@ class World:
                 (self.root / a).unlink()
                 self._write(b, data)
                 self.changed_since_scan = True
+        elif k == "write_old":
+            # another revision restored together with its old modification time (cp -p, rsync -t, unpacking an archive)
+            self._write(op[1], CONTENTS[op[2]].encode())
+            os.utime(self.root / op[1], (978_307_200, 978_307_200))
+            self.changed_since_scan = True
         elif k == "touch":
             if op[1] in self.files:
                 os.utime(self.root / op[1], (1_000_000_000 + self.scans, 1_000_000_000 + self.scans))
@@ -365,6 +370,8 @@ def alphabet(tier):
             ops.append(("write", p, c))
         ops.append(("delete", p))
         ops.append(("touch", p))
+    for p in paths[:2]:
+        ops.append(("write_old", p, contents[0]))
     for a, b in itertools.permutations(paths[:3] if tier == "quick" else paths[:4], 2):
         ops.append(("rename", a, b))
     for a, b in itertools.combinations(paths[:3], 2):
@@ -446,6 +453,10 @@ def make_machine(col):
         @rule(p=paths)
         def touch(self, p):
             self._do(("touch", p))
+
+        @rule(p=paths, c=st.integers(0, len(CONTENTS) - 1))
+        def write_old(self, p, c):
+            self._do(("write_old", p, c))
 
         @rule(a=paths, b=paths)
         def swap(self, a, b):
